@@ -171,7 +171,7 @@ def gen_exemplar(rng):
     if rng.random() < 0.5:
         ls = []
     else:
-        ls = [(k, rng.choice(['abc', 'x', '', 'a b', 'é', 'q\\q', 'n\nl'])) for k in rng.sample(['trace_id', 'span_id', 'a', 'é.x'], rng.choice([1, 2]))]
+        ls = [(k, rng.choice(['abc', 'x', '', 'a b', 'é', 'q\\q', 'n\nl', 'q"q', '"', 'b\\"', '}', '{', ' # {'])) for k in rng.sample(['trace_id', 'span_id', 'a', 'é.x'], rng.choice([1, 2]))]
     v = rng.choice(['1', '0.5', '-1', '1e3', 'NaN', '+Inf', '67'])
     t = rng.choice([None, None, '123', '123.456', '1e3'])
     return (ls, v, t)
